@@ -48,6 +48,10 @@ def run(ctx):
     ctx.rule("R14-6", "indentation does not change the structure, also on the first line: every alternative of the top "
                       "rule's repetition admits the implicit WHITESPACE skip before its first terminal (the first "
                       "iteration at offset 0 is the one position pest does not put a skip in front of)")
+    ctx.rule("R14-7", "a block is opened and closed only by its keywords: in every grammar rule that contains a body "
+                      "(EXP_BODY), the first and the last element of its sequence cannot match the empty string (EOI "
+                      "alone must not close an `if` / `for` / `while`: an unbalanced script would be accepted and its tail "
+                      "swallowed by the open block)")
     ctx.rule("R14-4", "run_exp_if leaves at the first passed branch; a body runs only under test_pass; `while` calls its "
                       "head test on every iteration; `for` calls set_env(var, value) before each body run, iterating forward")
     gpath = os.path.join(ctx.root, "src", "parsers", "grammar.pest")
@@ -78,6 +82,27 @@ def anchor_rule(ctx, crate, g):
     if not ctx.require(top is not None and top in g.rules, "R14-1", "R14-1|%s|top" % b.path,
                        "cannot identify the grammar rule passed to the parser", b.path):
         return
+    nblocks = 0
+    for name in g.order:
+        r = g.rules[name]
+        els = g.seq_elements(r["expr"])
+        if name == top or len(els) < 2 or not any(g.mentions(x, "EXP_BODY") for x in els):
+            continue
+        if g.mentions(els[0], "EXP_BODY") and g.mentions(els[-1], "EXP_BODY"):
+            continue    # EXP_BODY itself / pure containers
+        # skip a leading optional start-of-input marker
+        core = [x for x in els if not (x["k"] == "opt" and x["e"]["k"] == "ident" and x["e"]["v"] == "SOI")]
+        nblocks += 1
+        for pos, x in (("opening", core[0]), ("closing", core[-1])):
+            if g.mentions(x, "EXP_BODY"):
+                continue
+            okn = not g.nullable(x)
+            label = x["v"] if x["k"] == "ident" else x["k"]
+            ctx.ob("R14-7", b.path, "%s element %s of %s must consume text" % (pos, label, name), okn,
+                   key="R14-7|grammar|%s|%s|%s" % (name, pos, label), crate=crate.kind,
+                   detail=None if okn else "%s can match the empty string (e.g. at end of input): a script with a missing "
+                   "closing keyword parses, and the commands after the block are run as part of it" % label)
+    ctx.floor("R14-7", crate, "block rules in the grammar", nblocks, 5)
     alts = g.first_alternatives(top)
     for label, e in alts:
         oks = g.leading_skip(e)
